@@ -189,3 +189,51 @@ def num_val(table):
             return node.value
         return table.get(U(node))
     return val
+
+
+def expand_aliases(fnode):
+    """Copy of a function node in which a local that is assigned exactly
+    once from a pure attribute chain rooted at `self` (`manager =
+    self.sio.manager`), the chain itself not being re-bound in the function,
+    is replaced by that chain everywhere and its assignment dropped - so that
+    rules reading qualified texts see through the alias."""
+    import copy
+    stores = {}
+    for n in ast.walk(fnode):
+        if isinstance(n, ast.Name) and isinstance(n.ctx, ast.Store):
+            stores[n.id] = stores.get(n.id, 0) + 1
+    params = {a.arg for a in fnode.args.args + fnode.args.kwonlyargs}
+    alias = {}
+    for n in ast.walk(fnode):
+        if isinstance(n, ast.Assign) and len(n.targets) == 1 and \
+                isinstance(n.targets[0], ast.Name) and \
+                stores.get(n.targets[0].id) == 1 and \
+                n.targets[0].id not in params:
+            v = n.value
+            root = v
+            while isinstance(root, ast.Attribute):
+                root = root.value
+            if isinstance(v, ast.Attribute) and isinstance(root, ast.Name) \
+                    and root.id == 'self':
+                chain = ast.unparse(v)
+                if not any(isinstance(x, ast.Attribute) and
+                           isinstance(x.ctx, ast.Store) and
+                           ast.unparse(x) == chain for x in ast.walk(fnode)):
+                    alias[n.targets[0].id] = v
+    if not alias:
+        return fnode
+
+    class R(ast.NodeTransformer):
+        def visit_Assign(self, n):
+            if len(n.targets) == 1 and isinstance(n.targets[0], ast.Name) \
+                    and n.targets[0].id in alias:
+                return ast.copy_location(ast.Pass(), n)
+            return self.generic_visit(n)
+
+        def visit_Name(self, n):
+            if n.id in alias and isinstance(n.ctx, ast.Load):
+                return ast.copy_location(copy.deepcopy(alias[n.id]), n)
+            return n
+    out = R().visit(copy.deepcopy(fnode))
+    ast.fix_missing_locations(out)
+    return out
